@@ -94,6 +94,12 @@ inline void swarmEnv(Plan& p, Rng& r, bool readFaults, bool writeFaults, bool bi
 	p.setenv("readdir", r.chance(1, 2) ? r.next() | 1 : 0);
 }
 
+// Worlds holding megabytes: byte-sized transfers would only multiply intercepted calls (and run into the per-call I/O budget,
+// which exists to catch endless loops); keep short transfers, but not below 64 bytes.
+inline void coarsenFaultsForBigWorld(Plan& p) {
+	for (const char* k : {"short_read", "short_write"}) { uint64_t v = p.envu(k, 0); if (v && v < 64) p.setenv(k, 64); }
+}
+
 inline std::string randName(Rng& r, size_t minLen, size_t maxLen, bool punct) {
 	static const std::string alnum = "abcdefghijklmnopqrstuvwxyzABCDEFGHIJKLMNOPQRSTUVWXYZ0123456789";
 	static const std::string extra = "_-.~!@#$^&()+={}[],;' `|\\";
